@@ -144,6 +144,12 @@ func lpCaps(kind string) lpItem {
 		b = srv.Capability(srv.CapEntry{Type: 1, Mask: srv.MaskWith(14, lpReqBits...)}, srv.CapEntry{Type: 2, Mask: make([]byte, 14)})
 	case "response-omitted":
 		b = srv.Capability(srv.CapEntry{Type: 1, Mask: srv.MaskWith(14, lpReqBits...)})
+	case "ok+security-empty":
+		// a further capability type answered with a zero-length mask
+		// ("not requested"), as servers do for the security capabilities
+		b = srv.Capability(srv.CapEntry{Type: 1, Mask: srv.MaskWith(14, lpReqBits...)}, srv.CapEntry{Type: 2, Mask: srv.MaskWith(14, lpRespBits...)}, srv.CapEntry{Type: 3, Mask: []byte{}})
+	case "security-empty+ok":
+		b = srv.Capability(srv.CapEntry{Type: 3, Mask: []byte{}}, srv.CapEntry{Type: 1, Mask: srv.MaskWith(14, lpReqBits...)}, srv.CapEntry{Type: 2, Mask: srv.MaskWith(14, lpRespBits...)})
 	case "response-empty":
 		b = srv.Capability(srv.CapEntry{Type: 1, Mask: srv.MaskWith(14, lpReqBits...)}, srv.CapEntry{Type: 2, Mask: []byte{}})
 	default:
@@ -159,7 +165,14 @@ var lpRespBits = []int{3, 7, 21, 50}
 func lpEnv(packsize int) lpItem {
 	ms := []srv.EnvMember{{Type: 1, New: "master", Old: ""}}
 	if packsize > 0 {
-		ms = append(ms, srv.EnvMember{Type: 4, New: itoa(packsize), Old: "512"})
+		// the old value is the server's view: 512, or (sizes 1024 and 4096)
+		// the new value itself - a server "confirming" a size the client
+		// does not have yet
+		old := "512"
+		if packsize == 1024 || packsize == 4096 {
+			old = itoa(packsize)
+		}
+		ms = append(ms, srv.EnvMember{Type: 4, New: itoa(packsize), Old: old})
 	}
 	return lpItem{Kind: "env", B: srv.EnvChange(ms...)}
 }
